@@ -174,6 +174,7 @@ def worker(k, todo, jobs):
                         break   # detected; the remaining checks are not needed for the verdict
                 rec["detected_by"] = [c for c, v in rec["checks"].items() if v["rc"] == 1]
             rec["wall_s"] = round(time.time() - t0)
+            rec["ts"] = time.time()
             out.write(json.dumps(rec, ensure_ascii=False) + "\n")
             out.flush()
             sh("git checkout -- .", cwd=wt)
@@ -183,14 +184,21 @@ def worker(k, todo, jobs):
         shutil.rmtree(os.path.join("/verif/build", "alt-" + hashlib.sha1(wt.encode()).hexdigest()[:10]), ignore_errors=True)
 
 
-def run(jobs, lo, hi):
+def run(jobs, lo, hi, ids=None):
     plan = json.load(open(os.path.join(ROOT, "plan.json")))["plan"]
+    if ids:
+        todo = [m for m in plan if m["id"] in ids]
+        return _spawn(todo, jobs)
     done = set()
     for f in os.listdir(ROOT):
         if f.startswith("results.") and f.endswith(".jsonl"):
             for l in open(os.path.join(ROOT, f)):
                 done.add(json.loads(l)["id"])
     todo = [m for m in plan if lo <= m["id"] < hi and m["id"] not in done]
+    return _spawn(todo, jobs)
+
+
+def _spawn(todo, jobs):
     print("to run:", len(todo))
     pids = []
     per_check_jobs = max(2, 16 // jobs)
@@ -212,7 +220,10 @@ def table():
     for f in sorted(os.listdir(ROOT)):
         if f.startswith("results.") and f.endswith(".jsonl"):
             recs += [json.loads(l) for l in open(os.path.join(ROOT, f))]
-    recs.sort(key=lambda r: r["id"])
+    latest = {}
+    for r in sorted(recs, key=lambda r: r.get("ts", 0)):
+        latest[r["id"]] = r   # a mutant re-run after a check was strengthened: the latest verdict counts
+    recs = sorted(latest.values(), key=lambda r: r["id"])
     from collections import Counter
     st = Counter(r["status"] for r in recs)
     for r in recs:
@@ -244,6 +255,7 @@ if __name__ == "__main__":
     if a[0] == "gen":
         gen(opt("--seed", 1), opt("--count", 300))
     elif a[0] == "run":
-        run(opt("--jobs", 3), opt("--from", 0), opt("--to", 10 ** 9))
+        ids = set(int(x) for x in a[a.index("--ids") + 1].split(",")) if "--ids" in a else None
+        run(opt("--jobs", 3), opt("--from", 0), opt("--to", 10 ** 9), ids)
     elif a[0] == "table":
         table()
